@@ -136,7 +136,7 @@ CHECKS['C10'] = dict(
 CHECKS['C11'] = dict(
    text='Carriers with concrete physics and SYMBOLIC range, record step and time step, plain and extra in the same cell: the integration points seen by a pass-through spy are a bit-identical prefix of one reference sequence per carrier; every recorded range row equals the linear interpolation '
         'of the two bracketing reference points at its distance (terms in the request), time/event rows are reference points; extra output = plain rows (same terms) + event rows.',
-   note='Horizon K <= 12 quick / 24 thorough integration steps; carriers A (two winds), B, C [thorough + more]. Interpolation compared over the reals (identical terms). For shots outside the carrier list the statement follows from C03.filter + C01.step (the step never reads the filter).',
+   note='Horizon K <= 12 quick / 18 thorough integration steps; carriers A (two winds), B, C [thorough + more]. Interpolation compared over the reals (identical terms). For shots outside the carrier list the statement follows from C03.filter + C01.step (the step never reads the filter).',
    ref='3/C11')
 
 CHECKS['C18'] = dict(
@@ -174,6 +174,25 @@ ALSO = {
  'C20': 'Apex: also with a row flagged ZERO_DOWN before/after the peak.',
 }
 
+ROUND4 = {'C01': 'Round 4: the drag obtained in the loop is also checked against the TABLE itself (chord / three-point parabolas written in the harness), on a carrier with a measured table that does not start at Mach 0, and again after the BC was changed in place on the used calculator.',
+ 'C02': 'Round 4: the zero distance given as a quantity in several units or as a BARE number under a preferred unit set after import.',
+ 'C03': 'Round 4: range and record step given in independent forms (quantity in ft/m/yd or bare) under a preferred unit of the cell.',
+ 'C04': 'Round 4: symbolic look angle in the one-step world; inclined sight lines on carriers; no limit in reach with SYMBOLIC range under tail / head winds (the returned trajectory reaches the range).',
+ 'C05': 'Round 4: C05.spin goes through the real _init_trajectory; C05.mach_column: N real iterations in a vacuum / one in air - the atmosphere is asked once per step at the current altitude and the Mach column of the row is the speed over that answer.',
+ 'C06': 'Round 4: every pair is read through all public entry points (>>, get_in, <<, <<=, convert, Unit(q), after an earlier unit_value read) and the reported unit label is the requested one.',
+ 'C07': 'Round 4: C07.again - 12 methods called on ONE receiver: an explicit quantity, then the same bare number under two different preferred units; C07.compute with a wind whose until-distance carries its own unit label and an inch/kelvin assignment.',
+ 'C08': 'Round 4: C08.station_inputs - stations built through the constructor from quantities or BARE numbers (0 and negatives included) report what they were given and are ordered in density / speed of sound; a Vacuum stays a vacuum after humidity assignment and update_density_ratio().',
+ 'C09': 'Round 4: C09.sequence - three successive drag_by_mach look-ups at symbolic Mach numbers in any order on one solver object.',
+ 'C10': 'Round 4: C10.kept_results (returned and partial trajectories kept by the caller are untouched by later calls on the same calculator); a custom table that does not start at Mach 0 among the snapshotted arguments.',
+ 'C11': 'Round 4: rows looked up through get_at_distance in plain and extra results; C11.accessor on symbolic rows with an event row arbitrarily close before a range row. Thorough horizon reduced to K = 18 (24 ran past the unit budget).',
+ 'C12': 'Round 4: until-distances carrying different unit labels (assigned after construction / built under different preferred units); the same winds again on a used calculator.',
+ 'C13': 'Round 4: foreign-unit reads after other quantities (same magnitude, foreign and own dimension) were read legitimately.',
+ 'C15': 'Round 4: carrier H (rated supersonic, launched subsonic through powder sensitivity).',
+ 'C16': 'Round 4: one result object asked five questions in a row on the shorter trajectories (taller target: all claims again; same question same answer; another range in between); sight-line distance column independent of the distance column; symbolic look angle argument.',
+ 'C17': 'Round 4: the launch velocity in force whenever trajectory() or zero_angle() enters the integration (recorder in place of _integrate).',
+ 'C19': 'Round 4: another sight with other click sizes is asked first, and the same sight again after a question at another distance / magnification.',
+ 'C20': 'Round 4: the danger-space query centres on the same first row; sight-line distance column independent of the distance column.'}
+
 NOT_YET = {}
 
 def main():
@@ -191,7 +210,7 @@ def main():
             'replay_cmd_template': f'./check {pid} --replay {{path}}',
             'engine': 'symx',
             'level_claimed': {'category': 'other', 'text': c['text'], 'design_ref': c['ref']},
-            'level_note': c['note'] + (' ' + ALSO[pid] if pid in ALSO else ''),
+            'level_note': c['note'] + (' ' + ALSO[pid] if pid in ALSO else '') + (' ' + ROUND4[pid] if pid in ROUND4 else ''),
             'technique': c.get('technique', TECH),
         })
     na = []
